@@ -1940,38 +1940,42 @@ Octagonal_Shape<T>::relation_with(const Congruence& cg) const {
     return Poly_Con_Relation::strictly_intersects();
   }
 
-  PPL_DIRTY_TEMP_COEFFICIENT(signed_distance);
-
-  // Find the position value for the hyperplane that satisfies the congruence
-  // and is above the lower bound for the shape.
-  PPL_DIRTY_TEMP_COEFFICIENT(min_value);
-  min_value = min_numer / min_denom;
+  // The values taken by the expression on the shape are the closed
+  // interval [min_numer/min_denom, max_numer/max_denom].  The hyperplanes
+  // of the congruence are those where the expression is a multiple of
+  // the modulus: let `min_value' and `max_value' be the least and the
+  // greatest multiplier k such that k*modulus lies in that interval.
   const Coefficient& modulus = cg.modulus();
-  signed_distance = min_value % modulus;
-  min_value -= signed_distance;
-  if (min_value * min_denom < min_numer) {
-    min_value += modulus;
+  PPL_DIRTY_TEMP_COEFFICIENT(divisor);
+  PPL_DIRTY_TEMP_COEFFICIENT(remainder);
+  // min_value = ceiling(min_numer / (min_denom * modulus)).
+  PPL_DIRTY_TEMP_COEFFICIENT(min_value);
+  divisor = min_denom * modulus;
+  min_value = min_numer / divisor;
+  remainder = min_numer % divisor;
+  if (remainder > 0) {
+    ++min_value;
   }
-
-  // Find the position value for the hyperplane that satisfies the congruence
-  // and is below the upper bound for the shape.
+  // max_value = floor(max_numer / (max_denom * modulus)).
   PPL_DIRTY_TEMP_COEFFICIENT(max_value);
-  max_value = max_numer / max_denom;
-  signed_distance = max_value % modulus;
-  max_value += signed_distance;
-  if (max_value * max_denom > max_numer) {
-    max_value -= modulus;
+  divisor = max_denom * modulus;
+  max_value = max_numer / divisor;
+  remainder = max_numer % divisor;
+  if (remainder < 0) {
+    --max_value;
   }
 
-  // If the upper bound value is less than the lower bound value,
-  // then there is an empty intersection with the congruence;
-  // otherwise it will strictly intersect.
+  // If no hyperplane of the congruence meets the shape, they are disjoint.
   if (max_value < min_value) {
     return Poly_Con_Relation::is_disjoint();
   }
-  else {
-    return Poly_Con_Relation::strictly_intersects();
+  // If the expression is constant on the shape, then the (only) value
+  // it takes satisfies the congruence: the shape is included.
+  if (min_numer * max_denom == max_numer * min_denom) {
+    return Poly_Con_Relation::saturates()
+      && Poly_Con_Relation::is_included();
   }
+  return Poly_Con_Relation::strictly_intersects();
 }
 
 template <typename T>
